@@ -18,7 +18,6 @@ func init() {
 // slotExceptions: "Type.Field" -> reason, for obligations that do not apply.
 var slotExceptions = map[string]string{
 	"SelectStatement.IsRawQuery":        "derived from the fields by the parser, not a clause",
-	"SelectStatement.FillValue":         "printed with %v inside fill(...): a number the parser produced itself",
 	"SelectStatement.Fill":              "printed as the fill option keyword chosen by a switch on the option",
 	"SelectStatement.Location":          "printed as TZ('<name>'); the name was validated by time.LoadLocation",
 	"SortField.Name":                    "the parser admits only the name time (parseSortFields rejects any other), so no quoting is needed",
@@ -137,6 +136,10 @@ func slotAgreement(c *Ctx, prop string, which map[string]bool) {
 		tname := pr.T.Obj().Name()
 		str := p.Method(tname, "String")
 		if which["coverage"] {
+			for _, pg := range p.pointeeGuards(str) {
+				key := fmt.Sprintf("%s.String: %s printed only for some values", tname, pg.field)
+				c.Bad(R("guards"), key, pg.cond.Pos(), fmt.Sprintf("the optional clause is recorded by a non-nil pointer, yet it is printed only when `%s`: a clause written with the excluded value (FUTURE LIMIT 0s) is accepted, stored and then dropped by the printer, and what is left may not even parse", types.ExprString(pg.cond)))
+			}
 			sites := p.parseStoreSites(pr.fn, pr.T, tt)
 			for _, g := range p.printGuards(str) {
 				for _, set := range g.sets {
@@ -252,6 +255,8 @@ func slotAgreement(c *Ctx, prop string, which map[string]bool) {
 					case identClasses[pc], stringClasses[pc], pc == "DURATION", pc == "INT", pc == "UINT", pc == "NODE":
 					case qc == "RAW":
 						bad = "a text slot written raw (through no formatter at all): whatever the parser accepted there — a quoted name, a keyword — is printed unquoted"
+					case qc == "RAWVAL" && fieldIsEmptyInterface(pr.T, f) && !floatExcluded(p, str, qe[ei].pos, f):
+						bad = "a slot of type interface{} printed with a fmt verb: a float64 without a fraction prints like an integer (3.0 as 3) and parses back as an int64, so the value's kind changes across print/parse"
 					default:
 						continue // unclassified producer: coverage/keyword/order only
 					}
@@ -697,4 +702,86 @@ func rulesC01(c *Ctx) {
 	importRules(c, rulesC08, "C08.", "C01.duration-", func(r string) bool {
 		return r == "C08.units" || r == "C08.overflow" || r == "C08.digits"
 	})
+}
+
+func fieldIsEmptyInterface(T *types.Named, field string) bool {
+	st, ok := T.Underlying().(*types.Struct)
+	if !ok {
+		return false
+	}
+	for i := 0; i < st.NumFields(); i++ {
+		if st.Field(i).Name() == field {
+			it, ok := st.Field(i).Type().Underlying().(*types.Interface)
+			return ok && it.NumMethods() == 0
+		}
+	}
+	return false
+}
+
+// floatExcluded: the emission at pos lies on a branch taken only when the
+// field's dynamic type is not float64 (the else of `v, ok := x.F.(float64)`,
+// or another clause of a type switch that has a float64 clause).
+func floatExcluded(p *Program, str *types.Func, pos token.Pos, field string) bool {
+	fd := p.FuncDecls[str]
+	if fd == nil || fd.Body == nil {
+		return false
+	}
+	isField := func(e ast.Expr) bool {
+		sel, ok := ast.Unparen(e).(*ast.SelectorExpr)
+		return ok && sel.Sel.Name == field
+	}
+	isFloat := func(e ast.Expr) bool {
+		t := p.Info.TypeOf(e)
+		b, ok := t.(*types.Basic)
+		return ok && b.Kind() == types.Float64
+	}
+	found := false
+	ast.Inspect(fd.Body, func(n ast.Node) bool {
+		switch x := n.(type) {
+		case *ast.IfStmt:
+			if as, ok := x.Init.(*ast.AssignStmt); ok && len(as.Rhs) == 1 && x.Else != nil {
+				if ta, ok := ast.Unparen(as.Rhs[0]).(*ast.TypeAssertExpr); ok && ta.Type != nil && isField(ta.X) && isFloat(ta.Type) {
+					if x.Else.Pos() <= pos && pos < x.Else.End() {
+						found = true
+					}
+				}
+			}
+		case *ast.TypeSwitchStmt:
+			var operand ast.Expr
+			switch a := x.Assign.(type) {
+			case *ast.AssignStmt:
+				if ta, ok := ast.Unparen(a.Rhs[0]).(*ast.TypeAssertExpr); ok {
+					operand = ta.X
+				}
+			case *ast.ExprStmt:
+				if ta, ok := ast.Unparen(a.X).(*ast.TypeAssertExpr); ok {
+					operand = ta.X
+				}
+			}
+			if operand == nil || !isField(operand) {
+				return true
+			}
+			hasFloat := false
+			var mine *ast.CaseClause
+			for _, cl := range x.Body.List {
+				cc := cl.(*ast.CaseClause)
+				for _, e := range cc.List {
+					if isFloat(e) {
+						hasFloat = true
+						if cc.Pos() <= pos && pos < cc.End() {
+							hasFloat = false // the emission is in the float clause itself
+						}
+					}
+				}
+				if cc.Pos() <= pos && pos < cc.End() {
+					mine = cc
+				}
+			}
+			if hasFloat && mine != nil {
+				found = true
+			}
+		}
+		return true
+	})
+	return found
 }
